@@ -136,7 +136,8 @@ Proof.
   - cbn [app]. unfold dec_entrypoint.
     assert (Hl : Byte.to_N (b8 (nlength name)) = nlength name).
     { rewrite to_N_b8. apply N.mod_small. unfold nlength. lia. }
-    rewrite Hl. unfold nlength. rewrite Nat2N.id. apply take_app. reflexivity.
+    rewrite Hl. unfold nlength. rewrite Nat2N.id, take_app by reflexivity. rewrite E.
+    destruct (Nat.leb_spec 1 (length name)); [|lia]. destruct (Nat.leb_spec (length name) 31); [|lia]. reflexivity.
 Qed.
 
 (* sequences *)
@@ -210,11 +211,12 @@ Proof.
   cbn. unfold nlength. cbn in H2. rewrite H2. reflexivity.
 Qed.
 
-Lemma dec_enc_mop op r : wf_mop op -> dec_mop (mop_tag op) (enc_mop op ++ r) = Some (op, r).
+Lemma dec_enc_mop op r : wf_mop op -> norm_mop op = op -> dec_mop (mop_tag op) (enc_mop op ++ r) = Some (op, r).
 Proof.
-  intro H. destruct op; cbn [mop_tag dec_mop enc_mop].
+  intros H Hn. destruct op; cbn [mop_tag dec_mop enc_mop].
   - rewrite (c_reveal_ok _ r (wf_reveal _ _ H)). reflexivity.
-  - rewrite (c_transaction_ok _ r H). reflexivity.
+  - rewrite (c_transaction_ok _ r H). cbn [fst snd].
+    cbn [norm_mop] in Hn. injection Hn as Hn. rewrite Hn. destruct params; reflexivity.
   - rewrite (c_origination_ok _ r H). reflexivity.
   - rewrite (c_delegation_ok _ r H). reflexivity.
   - unfold c_register in *. rewrite (c_dyn_ok _ r H). reflexivity.
@@ -257,7 +259,8 @@ Proof.
   - destruct H as [Hh Hop].
     assert (Hm : dec c_header ((enc c_header h ++ enc_mop (norm_mop op)) ++ r) = Some (h, enc_mop (norm_mop op) ++ r)).
     { rewrite <- app_assoc. apply c_header_ok, Hh. }
-    pose proof (dec_enc_mop (norm_mop op) r (wf_norm_mop _ Hop)) as D. rewrite mop_tag_norm in D.
+    assert (Hidem : norm_mop (norm_mop op) = norm_mop op) by (destruct op; try reflexivity; cbn; rewrite norm_params_idem; reflexivity).
+    pose proof (dec_enc_mop (norm_mop op) r (wf_norm_mop _ Hop) Hidem) as D. rewrite mop_tag_norm in D.
     destruct op; cbn [mop_tag] in *; cbv beta iota; rewrite Hm; cbn [omap]; rewrite D; reflexivity.
 Qed.
 
@@ -438,4 +441,46 @@ Proof.
       assert (7 <= N.log2 n) by (apply N.log2_le_pow2; [lia | exact Hb]). lia. }
     rewrite HL. replace (N.log2 (n / 128) + 7) with (N.log2 (n / 128) + 1 * 7) by lia.
     rewrite N.div_add by lia. lia.
+Qed.
+
+(* ---------------------------------------------------------------- bridge to Client/Fees.v (C24):
+   the abstract content of the fee model has exactly the forged size of the operation *)
+From PV Require Client.Fees.
+
+Definition fees_kind (op : manager_op) : Fees.mkind :=
+  match op with
+  | MReveal _ _ => Fees.KReveal | MTransaction _ _ _ => Fees.KTransaction | MOrigination _ _ _ _ => Fees.KOrigination
+  | MDelegation _ => Fees.KDelegation | MRegisterGlobalConstant _ => Fees.KRegisterGlobalConstant
+  | MTransferTicket _ _ _ _ _ _ => Fees.KTransferTicket | MSrAddMessages _ => Fees.KSrAddMessages
+  | MSrExecuteOutbox _ _ _ => Fees.KSrExecuteOutbox
+  end.
+
+(* content.get('destination', '').startswith('KT') *)
+Definition fees_to_kt (op : manager_op) : bool :=
+  match op with
+  | MTransaction _ (AOriginated _) _ => true
+  | MTransferTicket _ _ _ _ (AOriginated _) _ => true
+  | _ => false
+  end.
+
+Definition fees_abstract (h : header) (op : manager_op) : Fees.mcontent :=
+  Fees.mkc (fees_kind op) (fees_to_kt op) (fee h) (counter h) (gas_limit h) (storage_limit h)
+           (N.of_nat (22 + length (enc_mop (norm_mop op)))).
+
+Lemma zlen_is_enc_nat_length n : N.of_nat (length (enc_nat n)) = Fees.zlen n.
+Proof. rewrite enc_nat_length. reflexivity. Qed.
+
+Lemma fees_size_is_forged_size h op :
+  length (snd (source h)) = 20%nat ->
+  N.of_nat (length (forge_operation (CManager h op))) = Fees.size (fees_abstract h op).
+Proof.
+  intro Hs. rewrite forge_operation_spec. unfold enc_content. cbn [normalise].
+  unfold Fees.size, fees_abstract. cbn [Fees.mkc Fees.rest Fees.fee Fees.counter Fees.gas_limit Fees.storage_limit].
+  rewrite <- !zlen_is_enc_nat_length.
+  cbn [length]. rewrite app_length.
+  assert (Hh : length (enc c_header h) =
+               (21 + length (enc_nat (fee h)) + length (enc_nat (counter h)) + length (enc_nat (gas_limit h))
+                + length (enc_nat (storage_limit h)))%nat).
+  { destruct h as [[k hs] f c g st]. cbn in *. rewrite !app_length, Hs. lia. }
+  rewrite Hh. lia.
 Qed.
